@@ -36,6 +36,7 @@ type replicator struct {
 	maxLagTime   time.Duration
 	lastCaughtUp time.Time
 	lastSeen     time.Time
+	lastOffset   int64 // latest log offset reported by the replica
 	requests     chan replicationRequest
 	mu           sync.RWMutex
 	leader       string
@@ -53,6 +54,7 @@ func newReplicator(epoch uint64, replica string, p *partition) *replicator {
 		requests:   make(chan replicationRequest, 1),
 		maxLagTime: p.srv.config.Clustering.ReplicaMaxLagTime,
 		leader:     p.srv.config.Clustering.ServerID,
+		lastOffset: -1,
 	}
 }
 
@@ -84,6 +86,7 @@ func (r *replicator) start(stop <-chan struct{}) {
 
 		r.mu.Lock()
 		r.lastSeen = req.received
+		r.lastOffset = req.Offset
 		r.mu.Unlock()
 
 		// Update the ISR replica's latest offset for the partition. This is
@@ -161,6 +164,7 @@ func (r *replicator) tick(stop <-chan struct{}) {
 			now                 = time.Now()
 			lastSeenElapsed     = now.Sub(r.lastSeen)
 			lastCaughtUpElapsed = now.Sub(r.lastCaughtUp)
+			lastOffset          = r.lastOffset
 		)
 		r.mu.RUnlock()
 		outOfSync := lastSeenElapsed > r.maxLagTime || lastCaughtUpElapsed > r.maxLagTime
@@ -172,8 +176,13 @@ func (r *replicator) tick(stop <-chan struct{}) {
 				r.replica, r.partition, lastSeenElapsed, lastCaughtUpElapsed)
 
 			r.shrinkISR()
-		} else if !outOfSync && !r.partition.inISR(r.replica) {
-			// Add replica back into ISR.
+		} else if !outOfSync && !r.partition.inISR(r.replica) &&
+			lastOffset >= r.partition.log.HighWatermark() {
+			// Add replica back into ISR. Having been caught up at some point
+			// within the lag window is not enough: while the replica was out of
+			// the ISR the leader committed messages without it, and an ISR
+			// member can be elected leader. Only re-add it once it has
+			// everything that is committed.
 			r.partition.srv.logger.Infof("Replica %s for partition %s caught back up with leader, "+
 				"rejoining ISR", r.replica, r.partition)
 			r.expandISR()
